@@ -173,6 +173,83 @@ def opNormalize (j : Json) : R Json := do
   | .ok sq => if sq.data.any (fun a => !isSq |a|) then throw "irrational-root"
   liftE (normalizeLit rabsQ v f)
 
+def opSelectLast (j : Json) : R Json := do
+  let a ← ndf j "a"
+  let k ← natf j "j"
+  if a.rank < 1 ∨ k ≥ a.shape.getLastD 0 then throw "IndexError"
+  return ofND (a.selectLast k)
+
+def opSliceLast (j : Json) : R Json := do
+  let a ← ndf j "a"
+  let lo ← natf j "lo"
+  let hi ← natf j "hi"
+  if a.rank < 1 ∨ lo > hi ∨ hi > a.shape.getLastD 0 then throw "IndexError"
+  return ofND (a.sliceLast lo hi)
+
+def opDeleteLast (j : Json) : R Json := do
+  let a ← ndf j "a"
+  let c ← natf j "c"
+  if a.rank < 1 ∨ c ≥ a.shape.getLastD 0 then throw "IndexError"
+  return ofND (a.deleteLast c)
+
+def opSetLast (j : Json) : R Json := do
+  let out ← ndf j "out"
+  if out.rank < 1 then throw "IndexError"
+  match (← strf j "how") with
+  | "const" => return ofND (out.setLastConst (← natf j "j") (← qf j "x"))
+  | "index" => return ofND (out.setLastIndex (← natf j "j") (← ndf j "v"))
+  | "slice" => return ofND (out.setLastSlice (← natf j "lo") (← natf j "hi") (← ndf j "v"))
+  | "idx" => return ofND (out.setLastIdx (← natsf j "idx") (← ndf j "v"))
+  | _ => throw "unknown"
+
+/-- the rows (last axis) of an array -/
+def rowsOf (x : ND ℚ) : List (List ℚ) :=
+  let n := x.shape.getLastD 0
+  if n = 0 then [] else (List.range (x.data.size / n)).map fun k => (List.range n).map fun c => x.data.getD (k * n + c) 0
+
+def needRank1 (x : ND ℚ) : R Unit := if x.rank < 1 then throw "precondition: ndim < 1" else pure ()
+
+/-- `hyperbolic.poincare_to_halfspace` / `halfspace_to_poincare` -/
+def opP2h (j : Json) : R Json := do
+  let x ← ndf j "x"
+  needRank1 x
+  if (rowsOf x).any (fun p => ((p.drop 1).map (fun t => t * t)).sum + (p.headD 0 - 1) * (p.headD 0 - 1) == 0) then throw "DivZero"
+  liftE (p2hND x)
+
+def opH2p (j : Json) : R Json := do
+  let x ← ndf j "x"
+  needRank1 x
+  if (rowsOf x).any (fun h => (h.dropLast.map (fun t => t * t)).sum + (h.getLastD 0 + 1) * (h.getLastD 0 + 1) == 0) then throw "DivZero"
+  liftE (h2pND x)
+
+/-- `projective.affine_coords(x, chart_index=c)` / `projective_coords(a, chart_index=c)` -/
+def opAffine (j : Json) : R Json := do
+  let x ← ndf j "x"
+  let c ← natf j "c"
+  needRank1 x
+  if c ≥ x.shape.getLastD 0 then throw "IndexError"
+  let n := x.shape.getLastD 0
+  if (List.range (x.data.size / n)).any (fun k => x.data.getD (k * n + c) 0 == 0) then throw "GeometryError"
+  liftE (affineCoordsND x c)
+
+def opProjCoords (j : Json) : R Json := do
+  let a ← ndf j "x"
+  let c ← natf j "c"
+  needRank1 a
+  if c > a.shape.getLastD 0 then throw "IndexError"
+  return ofND (projCoordsND a c)
+
+/-- `hyperbolic.Segment._compute_aux_data` (vectorised form) -/
+def opSegmentAux (j : Json) : R Json := do
+  let e ← ndf j "e"
+  if e.rank < 2 then throw "precondition: ndim < 2"
+  match segmentAuxND rabsQ e with
+  | .error err => throw err
+  | .ok r =>
+    -- exact roots only: the two rows of every unit must be null vectors
+    if (rowsOf r).any (fun x => -(x.headD 0 * x.headD 0) + ((x.drop 1).map (fun t => t * t)).sum != 0) then throw "irrational-root"
+    return ofND r
+
 def ops : List (String × Handler) :=
   [("nd.T", opT), ("nd.expand_range", opExpand), ("nd.squeeze", opSqueeze), ("nd.swapaxes", opSwap),
    ("nd.roll", opRoll), ("nd.sub", opSub), ("nd.select", opSelect), ("nd.slice", opSlice),
@@ -180,5 +257,8 @@ def ops : List (String × Handler) :=
    ("nd.stack", opStack), ("nd.concat", opConcat), ("nd.zip", opZip), ("nd.matmul", opMatmul),
    ("c04.expand_unit_axes", opExpandUnit), ("c04.squeeze_excess", opSqueezeExcess),
    ("c04.matrix_product", opMatrixProduct), ("c04.apply_bilinear", opBilinear),
-   ("c04.scale_last", opScaleLast), ("c04.p2k", opP2k), ("c04.k2p", opK2p), ("c04.normalize", opNormalize)]
+   ("c04.scale_last", opScaleLast), ("c04.p2k", opP2k), ("c04.k2p", opK2p), ("c04.normalize", opNormalize),
+   ("nd.select_last", opSelectLast), ("nd.slice_last", opSliceLast), ("nd.delete_last", opDeleteLast),
+   ("nd.set_last", opSetLast), ("c04.p2h", opP2h), ("c04.h2p", opH2p), ("c04.affine_coords", opAffine),
+   ("c04.projective_coords", opProjCoords), ("c04.segment_aux", opSegmentAux)]
 end GT.Driver.C04
